@@ -124,6 +124,7 @@ where
                             Variant::VSingle(f) if is_double => Variant::VDouble(f as f64),
                             Variant::VInteger(i) => Variant::VSingle(i as f32),
                             Variant::VLong(l) => Variant::VSingle(l as f32),
+                            Variant::VDouble(d) => Variant::VSingle(d as f32),
                             _ => v,
                         })
                     }
